@@ -179,6 +179,8 @@ def comp_hook(I, n, frame):
         return NotImplemented
     g = n.generators[0]
     it = I.eval(g.iter, frame)
+    if hasattr(it, "comp_view"):
+        return it.comp_view(I, n, frame)
     if not isinstance(it, SymSeq):
         # evaluate normally, but do not evaluate the iterable twice
         return _plain_comp(I, n, frame, it)
